@@ -28,6 +28,7 @@ class IOLog:
         self.fail_kinds = None      # restrict counting to these op kinds
         self.count = 0              # mutating ops seen since arming
         self.injected = None        # op that was failed
+        self.fail_pending = None    # path whose next raw write reports the error
         self.point_hook = None      # scheduler hook: called before each op
         self.read_hook = None       # called with (path, pos, n) on raw reads
         self.reads = 0
@@ -42,9 +43,11 @@ class IOLog:
         self.fail_kinds = kinds
         self.count = 0
         self.injected = None
+        self.fail_pending = None
 
     def disarm(self):
         self.fail_at = None
+        self.fail_pending = None
 
     def op(self, *op):
         """Log a mutating op; returns True if the fault plan says it fails."""
@@ -87,11 +90,20 @@ class RecFileIO(io.FileIO):
             pos = _os.fstat(self.fileno()).st_size
         else:
             pos = _os.lseek(self.fileno(), 0, 1)
+        if LOG.fail_pending == self._rpath:
+            # the rest of a short write: now the error is reported
+            LOG.fail_pending = None
+            raise _enospc(('write', self._rpath, pos, len(b)))
         if LOG.op('write', self._rpath, pos, b):
-            j = min(LOG.fail_partial, len(b))
-            if j:
+            # as write(2) does it: a write that cannot be completed reports
+            # the bytes it did write (a short count), and the error comes
+            # with the next call, which the buffered layer issues at once
+            # for the remainder
+            j = min(LOG.fail_partial, len(b) - 1)
+            if j > 0:
                 LOG.ops.append(('write', self._rpath, pos, b[:j]))
-                super().write(b[:j])
+                LOG.fail_pending = self._rpath
+                return super().write(b[:j])
             raise _enospc(('write', self._rpath, pos, len(b)))
         return super().write(b)
 
